@@ -825,6 +825,8 @@ impl<'v, 'a, 'e: 'a> Evaluator<'v, 'a, 'e> {
     /// Do not call during Starlark evaluation.
     pub unsafe fn garbage_collect(&mut self) {
         unsafe {
+            #[cfg(starlark_verif)]
+            crate::verif::note_collection();
             if self.verbose_gc {
                 eprintln!(
                     "Starlark: allocated bytes: {}, starting GC...",
